@@ -151,11 +151,45 @@ func fmtCompatFormat(f string) bool {
 	return true
 }
 
+// the argument-index grammar: every combination of width, precision and operand index forms
+// ('*' and '[n]*' included, valid and invalid indexes incl. [0]), as in fmt's own "%[3]*.[2]*[1]f"
+func genIndexGrammar(q *qw, w *bufio.Writer, rng *prng) {
+	{
+		idxArgs := func() []*Val {
+			return []*Val{{K: "i", GoT: "int", I: 6}, {K: "i", GoT: "int", I: 2}, {K: "i", GoT: "int", I: 41}, {K: "f", GoT: "float64", F: 7.25}}
+		}
+		for _, wd := range []string{"", "5", "*", "[1]*", "[3]*", "[9]*", "[2]"} {
+			for _, pr := range []string{"", ".2", ".*", ".[2]*", ".[7]*", ".", ".[1]"} {
+				for _, ix := range []string{"", "[1]", "[3]", "[4]", "[5]", "[0]", "[x]", "[2"} {
+					for _, vb := range []string{"d", "f", "v", "s|%d"} {
+						if !rng.coin(1, 2) {
+							continue
+						}
+						c := &pcase{entry: "sprintf", format: "<%" + wd + pr + ix + vb + ">", args: idxArgs()}
+						args := prepCase(c)
+						var rout, fout string
+						rp, _ := try(func() { rout = string(redact.Sprintf(c.format, args...)) })
+						fp, _ := try(func() { fout = fmt.Sprintf(c.format, args...) })
+						info := caseInfo(c)
+						q.truth("C04", "a print call panics exactly when fmt does", rp == fp, info)
+						q.truth("C11", "a Sprintf with argument indexes panicked", !rp, info)
+						if !rp && !fp {
+							q.eq("C04", "StripMarkers(redact output) = fmt output with markers replaced", fn("strip", lit(rout)), fn("escm", lit(fout)), info)
+						}
+						fmt.Fprintln(w, runPCase(c))
+					}
+				}
+			}
+		}
+	}
+}
+
 func genQ04(w *bufio.Writer, rng *prng, n int, depth int) {
 	q := &qw{w}
 	setRegistry(false)
 	setHook(nil)
 	genNativeQ04(q, w, rng, n/4+1)
+	genIndexGrammar(q, w, rng)
 	for i := 0; i < n; i++ {
 		g := &vgen{rng: rng, hostile: true, validUtf8: true, fmtCompat: true}
 		c := &pcase{reg: rng.coin(1, 4)}
@@ -990,6 +1024,27 @@ func genQ08(w *bufio.Writer, rng *prng, n int, depth int) {
 	q := &qw{w}
 	setRegistry(false)
 	setHook(nil)
+	// deep composition: outputs of hundreds of KiB built by re-printing and joining (the buffer grows
+	// past the sizes at which storage policies change); compared here, the strings are too long to ship
+	{
+		r := redact.Sprintf("user %s from %v\n", "alice‹", 10)
+		for d := 0; d < 15; d++ {
+			want := string(r) + " | " + string(r)
+			var got, gotJ redact.RedactableString
+			p1, _ := try(func() { got = redact.Sprintf("%s | %s", r, r) })
+			p2, _ := try(func() { gotJ = redact.Join(" | ", []redact.RedactableString{r, r}) })
+			info := fmt.Sprintf("doubling depth %d, %d bytes", d, len(want))
+			q.truth("C08", "Sprintf/Join of large redactables panicked", !p1 && !p2, info)
+			if p1 || p2 {
+				break
+			}
+			q.truth("C08", "Sprintf of two large redactables = concatenation with the literal", string(got) == want, info)
+			q.truth("C08", "Join of two large redactables = concatenation with the delimiter", string(gotJ) == want, info)
+			q.truth("C08", "Sprint(r) = r for a large redactable", redact.Sprint(got) == got && redact.Sprintf("%v", []redact.RedactableString{got}) == "["+got+"]", info)
+			q.truth("C08", "Redact distributes over a large composition", got.Redact() == r.Redact()+" | "+r.Redact(), info)
+			r = got
+		}
+	}
 	for i := 0; i < n; i++ {
 		g := &vgen{rng: rng, hostile: true}
 		r1, r2 := libRedactable(g, rng.intn(depth+1)), libRedactable(g, rng.intn(depth+1))
@@ -1282,6 +1337,14 @@ type failWriter struct {
 
 var errSink = errors.New("sink failed")
 
+type wsWriter struct {
+	writes, wstrings int
+	buf              bytes.Buffer
+}
+
+func (w *wsWriter) Write(p []byte) (int, error)       { w.writes++; return w.buf.Write(p) }
+func (w *wsWriter) WriteString(s string) (int, error) { w.wstrings++; return w.buf.WriteString(s) }
+
 func (f *failWriter) Write(p []byte) (int, error) {
 	f.writes = append(f.writes, append([]byte(nil), p...))
 	switch f.mode {
@@ -1397,6 +1460,19 @@ func genQ16(w *bufio.Writer, rng *prng, n int, depth int) {
 			q.eq("C16", "SafePrinter.Print(f) inside SafeFormat agrees with Sprint(f) up to merging", fn("norm", lit(so)), fn("norm", lit(s)), info)
 		}
 		q.truth("C16", "Fprint(f) delivers the text in a single Write", len(fw.writes) == 1, info)
+		{
+			// a writer that also has WriteString (an embedded *bytes.Buffer with Write overridden):
+			// the text must still arrive through Write, once
+			ws := &wsWriter{}
+			_, _ = try(func() {
+				if isF {
+					_, _ = redact.Fprintf(ws, c.format, prepCase(c)...)
+				} else {
+					_, _ = redact.Fprint(ws, prepCase(c)...)
+				}
+			})
+			q.truth("C16", "Fprint(f) delivers the text in a single Write (writer that also has WriteString)", ws.writes == 1 && ws.wstrings == 0 && ws.buf.String() == fo, info)
+		}
 		wantN, wantErr := len(fo), error(nil)
 		switch mode {
 		case 1:
@@ -1656,6 +1732,7 @@ func genQ11(w *bufio.Writer, rng *prng, n int, depth int) {
 			}
 		}
 	}
+	genIndexGrammar(q, w, rng)
 	// JoinTo with operands that are not slices
 	operands := []interface{}{5, nil, "str", [2]int{1, 2}, struct{ A int }{3}, (*int)(nil), map[string]int{"a": 1}, 3.5, []int(nil), []interface{}{}, []interface{}{nil, 1}, error(nil), redact.Safe(3), []string{"a", "b"}}
 	for _, op := range operands {
@@ -1775,14 +1852,33 @@ func c12probes() []probeFn {
 		}},
 		{"Fprintf", func() string { var b bytes.Buffer; _, _ = redact.Fprintf(&b, "%x %q", "hi", 'x'); return b.String() }},
 		{"EscapeBytes", func() string { return string(redact.EscapeBytes([]byte("a‹b\nc"))) }},
+		{"struct %+v", func() string { return string(redact.Sprintf("%+v|%#v", sameNameB(), sameNameB())) }},
 	}
+}
+
+// two different struct types whose reflect.Type.String() is the same (function-local types of the
+// same name): the first is printed by histories only, the second by a probe only
+func sameNameA() interface{} {
+	type rec struct{ User, Addr string }
+	return rec{"alice", "10.0.0.1"}
+}
+
+func sameNameB() interface{} {
+	type rec struct {
+		Card   string
+		Amount int
+	}
+	return rec{"4111", 250}
 }
 
 func c12history(g *vgen, depth int) {
 	rng := g.rng
 	k := 1 + rng.intn(6)
 	for j := 0; j < k; j++ {
-		switch rng.intn(12) {
+		switch rng.intn(13) {
+		case 12:
+			_ = redact.Sprintf(rng.pick([]string{"%+v", "%#v", "%v"}), sameNameA())
+			_ = redact.Sprintfn(func(p redact.SafePrinter) { p.Printf("%+v", sameNameA()) })
 		case 0: // very large output: the printer's buffer is dropped, not recycled
 			_ = redact.Sprintf("%70000d %s", 1, strings.Repeat("x", 100))
 		case 1:
@@ -1861,6 +1957,9 @@ func genQ12(w *bufio.Writer, rng *prng, n int, depth int, baseline bool) {
 		q.truth("C12", "baseline process failed", false, fmt.Sprint(err))
 		return
 	}
+	// process-wide state keyed by something coarser than the type: the namesake type is printed
+	// before the probe's type is ever seen in this process (the baseline process never prints it)
+	_ = redact.Sprintf("%+v %#v", sameNameA(), sameNameA())
 	allocs0 := redact.VerifPoolAllocs()
 	calls := 0
 	// fixed edge histories first: a caller-made (malformed) pre-redactable operand - lone or dangling
@@ -2517,6 +2616,23 @@ func genQ17(w *bufio.Writer, rng *prng, n int, depth int) {
 					p, _ := try(func() { out = string(redact.Sprintf(d, mkc())) })
 					if !p {
 						q.truth("C17", fmt.Sprintf("hook called for Unsafe(err) inside a container (%d)", ci), len(hookLog) == 0 && !strings.Contains(out, "HOOK["), info+" out="+out)
+					}
+				}
+			}
+			// under Safe() the hook still renders the error (Unsafe() is the only exception)
+			if hookOn && !isPanic {
+				for ci, mkc := range []func() interface{}{
+					func() interface{} { return redact.Safe(e) },
+					func() interface{} { return []interface{}{redact.Safe(e)} },
+					func() interface{} { return redact.Safe([]interface{}{e}) },
+					func() interface{} { return redact.Safe(holder{E: e}) },
+					func() interface{} { return holder{I: redact.Safe(e)} },
+				} {
+					hookLog = nil
+					var out string
+					p, _ := try(func() { out = string(redact.Sprintf(d, mkc())) })
+					if !p {
+						q.truth("C17", fmt.Sprintf("hook not called exactly once for an error under Safe() (%d)", ci), len(hookLog) == 1 && hookLog[0].err == e && strings.Contains(out, "HOOK["), info+fmt.Sprintf(" out=%s log=%v", out, hookLog))
 					}
 				}
 			}
